@@ -455,3 +455,109 @@ package thrift
 //@   ensures others: forall i :: 0 <= i && i < len(p.Buf) && (i < pos || i >= pos + 4) ==> p.Buf[i] == old(p.Buf[i])
 //@   ensures read: p.Read == old(p.Read)
 //@   modifies p.Buf, p.Buf[pos:pos+4] if len(p.Buf) >= pos + 4
+
+// ---- requires bitmap (C16) ------------------------------------------------------------------------------
+// view: bit(b, id) — ids beyond the allocated words read as 0
+//@ pure bit(b RequiresBitmap, id FieldID) bool = int(id)/64 < len(b) && (b[int(id)/64] >> (uint64(id) % 64)) & 1 == 1
+//@ pure bmask(id FieldID) uint64 = uint64(1) << (uint64(id) % 64)
+// word w of the bitmap as it was (0 when not allocated yet)
+//@ pure bword(b RequiresBitmap, w int) uint64 = ite(w < len(b), b[w], uint64(0))
+
+//@ spec (*RequiresBitmap).malloc
+//@   props C16
+//@   requires b != nil && id >= 0
+//@   ensures len: len(*b) > int(id)/64 && len(*b) >= old(len(*b))
+//@   ensures kept: forall w :: 0 <= w && w < old(len(*b)) ==> (*b)[w] == old((*b)[w])
+//@   ensures zero: forall w :: old(len(*b)) <= w && w < len(*b) ==> (*b)[w] == 0
+//@   ensures same: int(id)/64 < old(len(*b)) ==> same(*b, old(*b)) && len(*b) == old(len(*b)) && cap(*b) == old(cap(*b))
+//@   ensures grown: int(id)/64 >= old(len(*b)) ==> fresh(*b)
+//@   modifies *b
+//@   split int(id)/64 < len(*b)
+
+//@ spec (*RequiresBitmap).Set
+//@   props C16 C03 C11
+//@   requires b != nil && !samerg(b, *b) && (val == OptionalRequireness || val == DefaultRequireness || val == RequiredRequireness)
+//@   ensures bit: bit(*b, id) == (val != OptionalRequireness)
+//@   ensures others: forall j :: 0 <= j && j < 65536 && j != int(id) ==> bit(*b, FieldID(j)) == old(bit(*b, FieldID(j)))
+//@   ensures len: len(*b) > int(id)/64 && len(*b) >= old(len(*b))
+//@   ensures word: (*b)[int(id)/64] == ite(val == OptionalRequireness, old(bword(*b, int(id)/64)) &^ bmask(id), old(bword(*b, int(id)/64)) | bmask(id))
+//@   ensures kept: forall w :: 0 <= w && w < old(len(*b)) && w != int(id)/64 ==> (*b)[w] == old((*b)[w])
+//@   ensures zero: forall w :: old(len(*b)) <= w && w < len(*b) && w != int(id)/64 ==> (*b)[w] == 0
+//@   ensures same: int(id)/64 < old(len(*b)) ==> same(*b, old(*b)) && len(*b) == old(len(*b))
+//@   ensures grown: int(id)/64 >= old(len(*b)) ==> fresh(*b)
+//@   modifies *b, (*b)[int(id)/64:int(id)/64+1] if int(id)/64 < len(*b)
+//@   split int(id)/64 < len(*b)
+
+//@ spec (RequiresBitmap).IsSet
+//@   props C16
+//@   requires inrange: int(id)/64 < len(b)
+//@   ensures r0 == bit(b, id)
+
+// CopyTo: `to` receives the same view; its storage is either its own old storage or a new allocation —
+// never the source's (no option may ever write through to the descriptor's bitmap).
+//@ spec (RequiresBitmap).CopyTo
+//@   props C16 C12
+//@   requires to != nil && !sameregion(*to, b) && !samerg(to, b) && !samerg(to, *to)
+//@   ensures len: len(*to) == len(b)
+//@   ensures words: forall w :: 0 <= w && w < len(b) ==> (*to)[w] == b[w]
+//@   ensures reuse: len(b) <= old(cap(*to)) ==> same(*to, old(*to))
+//@   ensures fresh: len(b) > old(cap(*to)) ==> fresh(*to)
+//@   ensures src: forall w :: 0 <= w && w < len(b) ==> b[w] == old(b[w])
+//@   modifies *to, (*to)[0:len(b)] if len(b) <= cap(*to)
+//@   split len(b) <= cap(*to)
+
+// CheckRequires / HandleRequires: walk every marked bit and apply the documented decision table.
+// ASSUMED about `handler`: it leaves the descriptor's id table and the bitmap's words unchanged.
+// The table is proved per iteration: the handler is called only when the field is owed (callee requires),
+// and an iteration over a marked bit that does not return makes exactly one call iff the field is owed (step).
+//@ pure howed(f *FieldDescriptor, wr bool, wd bool, wo bool) bool = f.required == RequiredRequireness && wr || \
+//@      f.required == DefaultRequireness && wd || f.required == OptionalRequireness && (wo || f.defaultValue != nil)
+
+//@ spec (RequiresBitmap).CheckRequires
+//@   props C16 C06
+//@   requires desc != nil && handler != nil && len(b) <= 1024    // FieldID is 16 bits wide: at most 1024 words
+//@   callee handler preserves desc, desc.ids.m, b, targets(desc.ids.m)
+//@   callee handler requires owed: a0 != nil && a0.required != RequiredRequireness && writeDefault
+//@   loop 1
+//@     invariant ptr: samerg(s, b) && offset(s) == offset(b) + 8*i && n == len(b)
+//@     step exhausted: v == 0 || j >= 64
+//@   loop 2
+//@     invariant word: 0 <= i && i < len(b) && v == b[i] >> uint64(j)
+//@     invariant j: 0 <= j && j <= 64
+//@     step table: v % 2 == 1 ==> calls() - headcalls() == ite(writeDefault, 1, 0)
+//@     step skip: v % 2 == 0 ==> calls() == headcalls()
+//@     decreases 64 - j
+
+//@ spec (RequiresBitmap).HandleRequires
+//@   props C16 C06
+//@   requires desc != nil && handler != nil && len(b) <= 1024
+//@   requires separate: !samerg(b, desc) && !samerg(b, desc.ids.m) && !samerg(desc, desc.ids.m)
+//@   requires declared: forall k :: 0 <= k && k < 65536 && bit(b, FieldID(k)) ==> k < len(desc.ids.m) && desc.ids.m[k] != nil && fieldat(desc.ids.m[k]).required <= 2
+//@   callee handler preserves desc, desc.ids.m, b, targets(desc.ids.m)
+//@   callee handler requires nonnil: a0 != nil
+//@   callee handler requires req: a0.required == RequiredRequireness ==> writeRequired
+//@   callee handler requires def: a0.required == DefaultRequireness ==> writeDefault
+//@   callee handler requires opt: a0.required == OptionalRequireness ==> writeOptional || a0.defaultValue != nil
+//@   callee handler requires range: a0.required <= 2
+//@   loop 1
+//@     invariant ptr: samerg(s, b) && offset(s) == offset(b) + 8*i && n == len(b)
+//@     step exhausted: v == 0 || j >= 64
+//@   loop 2
+//@     invariant word: 0 <= i && i < len(b) && v == b[i] >> uint64(j)
+//@     invariant j: 0 <= j && j <= 64
+//@     step complete: v % 2 == 1 && calls() == headcalls() ==> !old(howed(fieldat(desc.ids.m[i*64+j]), writeRequired, writeDefault, writeOptional))
+//@     step once: calls() - headcalls() <= 1
+//@     step skip: v % 2 == 0 ==> calls() == headcalls()
+//@     decreases 64 - j
+
+// convertRequireness: how the IDL's requiredness and the parse options determine the descriptor's
+// requiredness and its bit in the struct's requires-bitmap (documented table).
+//@ spec convertRequireness
+//@   props C16 C14
+//@   requires st != nil && f != nil && !samerg(st, f) && !samerg(f, st.requires) && !samerg(st, st.requires)
+//@   requires kind: r == parser.FieldType_Default || r == parser.FieldType_Optional || r == parser.FieldType_Required
+//@   ensures req: f.required == ite(r == parser.FieldType_Default, DefaultRequireness, ite(r == parser.FieldType_Optional, OptionalRequireness, RequiredRequireness))
+//@   ensures bit: bit(st.requires, f.id) == (!(old(f.isRequestBase) || old(f.isResponseBase)) && \
+//@       (r == parser.FieldType_Required || r == parser.FieldType_Default || opts.SetOptionalBitmap))
+//@   ensures others: forall j :: 0 <= j && j < 65536 && j != int(f.id) ==> bit(st.requires, FieldID(j)) == old(bit(st.requires, FieldID(j)))
+//@   modifies f.required, st.requires, heap
